@@ -27,8 +27,8 @@ LEVEL = "model_checking"
 
 MC_QUICK = ["mc/MC_Pipeline_quick.cfg"]
 MC_THOROUGH = ["mc/MC_Pipeline_quick.cfg", "mc/MC_Pipeline_b.cfg", "mc/MC_Pipeline_c.cfg", "mc/MC_Pipeline_d.cfg"]
-MUTANTS_QUICK = ["table_after_filter", "no_skew_bound"]
-MUTANTS_THOROUGH = ["table_after_filter", "no_skew_bound", "no_filter", "print_first_only", "dedup_first_meta",
+MUTANTS_QUICK = ["table_after_filter", "no_skew_bound", "members_sorted"]
+MUTANTS_THOROUGH = ["table_after_filter", "no_skew_bound", "members_sorted", "no_filter", "print_first_only", "dedup_first_meta",
                     "dedup_push_always"]
 ACTIONS = ("DeliverAny", "Tick", "DedupArrive", "Emit", "PrintRec")
 
@@ -123,6 +123,18 @@ def corruptions(events):
         add("c_identity_df", c)
         c = copy.deepcopy(sc); c[i0]["t"] += 1
         add("b_shape", c)
+        c = copy.deepcopy(sc); c[i0]["tu"] += 1
+        add("b_shape_us", c)
+        swap = [i for i in recs if len(sc[i]["m"]) >= 2 and sc[i]["m"][0]["tu"] != sc[i]["m"][1]["tu"]]
+        if swap:                       # the receptions listed in another order, the record's stamp kept
+            c = copy.deepcopy(sc); c[swap[0]]["m"][0], c[swap[0]]["m"][1] = c[swap[0]]["m"][1], c[swap[0]]["m"][0]
+            add("b_shape_swap", c)
+        if swap:                       # a reception listed first although stamped Skew or more after the next
+            c = copy.deepcopy(sc); k = swap[0]
+            late = c[k]["m"][1]["t"] + pipeline.SKEW_MS + 1
+            c[k]["t"] = c[k]["m"][0]["t"] = late
+            c[k]["tu"] = c[k]["m"][0]["tu"] = late * 1000
+            add("b_shape_order", c)
         c = copy.deepcopy(sc); c.insert(i0 + 1, copy.deepcopy(c[i0]))
         add("b_once", c)
         if sc[0]["w"] >= 100:
@@ -224,7 +236,7 @@ def self_test(run, events, rejected_lines, workdir):
         got.setdefault(ln, set()).add(clause)
     hit, tried = {}, {}
     for ln, clause in expect.items():
-        want = "c_identity" if clause == "c_identity_df" else clause
+        want = "c_identity" if clause == "c_identity_df" else "b_shape" if clause.startswith("b_shape") else clause
         tried.setdefault(clause, []).append(sorted(got.get(ln, set())))
         if want in got.get(ln, set()):
             hit[clause] = hit.get(clause, 0) + 1
